@@ -185,11 +185,14 @@ impl Scenario for Rl {
         w.inner.lock().unwrap().second_ready_check_fails = self.timeout == 60 || self.timeout == WAIT_FOR_EVER;
         // (timeouts 40 and 100 ms: a no-op listener is registered for every event type)
         let with_listeners = self.timeout == 40 || self.timeout == 100;
-        let layer = (if self.from_preset { RateLimiterLayer::burst(3, 4) } else { RateLimiterLayer::builder() })
-            .limit_for_period(self.limit)
-            .refresh_period(Duration::from_millis(self.period()))
-            .timeout_duration(self.timeout_dur())
-            .window_type(self.window);
+        let start = if self.from_preset { RateLimiterLayer::burst(3, 4) } else { RateLimiterLayer::builder() };
+        // (timeouts 60 and 100 ms - above the period - issue the setters in the reverse order: a
+        // setting must not depend on what was set before or after it)
+        let layer = if self.timeout == 60 || self.timeout == 100 {
+            start.window_type(self.window).timeout_duration(self.timeout_dur()).refresh_period(Duration::from_millis(self.period())).limit_for_period(self.limit)
+        } else {
+            start.limit_for_period(self.limit).refresh_period(Duration::from_millis(self.period())).timeout_duration(self.timeout_dur()).window_type(self.window)
+        };
         let layer = if with_listeners { layer.on_permit_acquired(|_| {}).on_permit_rejected(|_| {}).on_permits_refreshed(|_| {}) } else { layer };
         let layer = layer.build();
         X { svc: layer.clone().layer(GatedInner::new(w.inner.clone())), pre: None }
